@@ -26,8 +26,9 @@ type State struct {
 	dead    bool
 	unsupp  []string // unsupported constructs met on this path
 	pcSet   map[string]bool
-	fresh   bool // C09: the context was consulted since the current loop iteration began
-	ops     int  // straight-line backend operations since last context check (C09)
+	locks   map[string]int // mutex typestate: 1 held for reading, 2 for writing (copy-on-write)
+	fresh   bool           // C09: the context was consulted since the current loop iteration began
+	ops     int            // straight-line backend operations since last context check (C09)
 }
 
 func NewState() *State {
@@ -45,6 +46,7 @@ func (s *State) Clone() *State {
 		unsupp:  append([]string(nil), s.unsupp...),
 		ops:     s.ops,
 		fresh:   s.fresh,
+		locks:   s.locks,
 		pcSet:   make(map[string]bool, len(s.pcSet)),
 	}
 	for k := range s.pcSet {
@@ -743,7 +745,7 @@ func (ex *Exec) sliceToHeap(st *State, sl *SliceV) *SliceV {
 		}
 	}
 	st.heap[key] = store(ex.heapArrE(st, key, as), back, cur)
-	return &SliceV{Elem: sl.Elem, Len: sl.Len, Back: back}
+	return &SliceV{Elem: sl.Elem, Len: sl.Len, Back: back, Temp: true}
 }
 
 func (ex *Exec) sliceGet(st *State, sl *SliceV, idx *Term) Val {
@@ -821,7 +823,7 @@ func (ex *Exec) havocArgs(st *State, args []Val) {
 		}
 		switch x := v.(type) {
 		case *SliceV:
-			if x.ArrPtr != nil {
+			if x.ArrPtr != nil || x.Temp {
 				return
 			}
 			key, as := sliceKey(x.Elem)
